@@ -210,7 +210,10 @@ def _str(interp, args, kwargs):
             return str(v)
     if isinstance(v, (EnumMember,)):
         return repr(v)
-    raise OutOfSubset("str() of %r" % (v,))
+    if CTX.mode == "sym":
+        # rendering of a compound / symbolic value (only ever used for messages): an unknown string
+        return SStr(z3.String(CTX.fresh_name("rendered")))
+    return "<%s>" % type(v).__name__
 
 
 def _list(interp, args, kwargs):
